@@ -32,7 +32,8 @@ type C05Input struct {
 	Mode   string   `json:"mode"`  // hist | tamper | keys | mode
 	MSeed  uint64   `json:"mseed"` // seed of the marker table
 	Ops    []DBStep `json:"ops,omitempty"`
-	Class  string   `json:"class,omitempty"` // tamper class
+	Outage bool     `json:"outage,omitempty"` // the key service is DOWN between opens: any KEK call after open fails
+	Class  string   `json:"class,omitempty"`  // tamper class
 	Detail string   `json:"detail,omitempty"`
 }
 
@@ -285,9 +286,32 @@ func probeFile(bs []byte, kek tink.AEAD, tok func([]byte) uint64) c05Struct {
 
 // ---- one history ----
 
+// downAEAD simulates the key service: while down, every call fails (after having been counted
+// by the proxy in front of it).
+type downAEAD struct {
+	inner tink.AEAD
+	down  bool
+}
+
+func (a *downAEAD) Encrypt(pt, ad []byte) ([]byte, error) {
+	if a.down {
+		return nil, fmt.Errorf("key service unavailable")
+	}
+	return a.inner.Encrypt(pt, ad)
+}
+func (a *downAEAD) Decrypt(ct, ad []byte) ([]byte, error) {
+	if a.down {
+		return nil, fmt.Errorf("key service unavailable")
+	}
+	return a.inner.Decrypt(ct, ad)
+}
+
 type c05Env struct {
 	dir, state, path string
-	kek              *countingAEAD
+	kek              *countingAEAD // what db.Open is given: counts, then passes to [down]
+	down             *downAEAD     // fails every call while the key service is "down"
+	real             tink.AEAD     // the key itself (for the harness's own probes)
+	outage           bool          // keep the key service down between opens
 	d                *db.DB
 	aw               *audit.Writer
 	super            db.Caller
@@ -300,7 +324,8 @@ func newC05Env(dir string, kek tink.AEAD) (*c05Env, error) {
 	if err := os.MkdirAll(state, 0700); err != nil {
 		return nil, err
 	}
-	e := &c05Env{dir: dir, state: state, path: filepath.Join(state, "db.json"), kek: &countingAEAD{inner: kek}}
+	e := &c05Env{dir: dir, state: state, path: filepath.Join(state, "db.json"), real: kek, down: &downAEAD{inner: kek}}
+	e.kek = &countingAEAD{inner: e.down}
 	aw, err := audit.NewFile(filepath.Join(state, "audit.log"))
 	if err != nil {
 		return nil, err
@@ -326,7 +351,9 @@ func (e *c05Env) reopen() (int, error) {
 	}
 	e.aw = aw
 	k0 := e.kek.count()
+	e.down.down = false // the key service is up while the server starts
 	d, err := db.Open(e.path, e.kek, aw)
+	e.down.down = e.outage
 	if err != nil {
 		return e.kek.count() - k0, err
 	}
@@ -347,6 +374,8 @@ type c05StepObs struct {
 	ModeDB   uint64    `json:"mode_db"`
 	ModeAud  uint64    `json:"mode_audit"`
 	KEK      int       `json:"kek_uses"`
+	ResClass uint64    `json:"res_class"` // 0 success, 1 not found, 2 other error
+	Live     []secDump `json:"served"`    // the state the handle serves afterwards
 }
 
 func fileMode(path string) uint64 {
@@ -362,6 +391,12 @@ func (e *c05Env) step(m *c05Markers, st DBStep) c05StepObs {
 	k0 := e.kek.count()
 	name := string(st.Name)
 	var err error
+	hidden := e.state + ".hidden"
+	if st.SaveFail { // the file system refuses the save: the state directory is unreachable during the call
+		if rerr := os.Rename(e.state, hidden); rerr != nil {
+			fatal("hide state dir: %v", rerr)
+		}
+	}
 	func() {
 		defer func() {
 			if p := recover(); p != nil {
@@ -389,13 +424,50 @@ func (e *c05Env) step(m *c05Markers, st DBStep) c05StepObs {
 			_, err = e.d.List(e.super)
 		}
 	}()
+	if st.SaveFail {
+		if rerr := os.Rename(hidden, e.state); rerr != nil {
+			fatal("restore state dir: %v", rerr)
+		}
+	}
 	o.Res = classify(err)
+	switch o.Res {
+	case "":
+		o.ResClass = 0
+	case "notfound":
+		o.ResClass = 1
+	default:
+		o.ResClass = 2
+	}
 	o.KEK = e.kek.count() - k0
+	o.Live = dumpTok(e.d, e.super, m.token)
 	bs, _ := os.ReadFile(e.path)
-	o.S = probeFile(bs, e.kek.inner, m.token)
+	o.S = probeFile(bs, e.real, m.token)
 	o.ValHits, o.NameHits = m.scanDir(e.state)
 	o.ModeDB, o.ModeAud = fileMode(e.path), fileMode(filepath.Join(e.state, "audit.log"))
 	return o
+}
+
+// dumpTok lists everything the handle serves, values as this history's tokens.
+func dumpTok(d *db.DB, super db.Caller, tok func([]byte) uint64) []secDump {
+	infos, err := d.List(super)
+	if err != nil {
+		return []secDump{{Name: []byte("<<list failed>>")}}
+	}
+	out := []secDump{}
+	for _, in := range infos {
+		sd := secDump{Name: []byte(in.Name), Active: uint64(in.ActiveVersion)}
+		for _, v := range in.Versions {
+			sv, err := d.GetVersion(super, in.Name, v)
+			if err != nil {
+				return []secDump{{Name: []byte("<<get failed>>")}}
+			}
+			sd.Vers = append(sd.Vers, verVal{Ver: uint64(v), Val: tok(sv.Value)})
+		}
+		sort.Slice(sd.Vers, func(i, j int) bool { return sd.Vers[i].Ver < sd.Vers[j].Ver })
+		out = append(out, sd)
+	}
+	sort.Slice(out, func(i, j int) bool { return bytes.Compare(out[i].Name, out[j].Name) < 0 })
+	return out
 }
 
 func c05CoqOp(m *c05Markers, st DBStep) string {
@@ -406,9 +478,9 @@ func c05CoqOp(m *c05Markers, st DBStep) string {
 }
 
 func coqSobs(o c05StepObs) string {
-	return fmt.Sprintf("So %s %d %s %s %s %s %s %d %d %d %d %d", coqNList(o.S.Keys), o.S.Ver,
+	return fmt.Sprintf("So %s %d %s %s %s %s %s %d %d %d %d %d %d %s", coqNList(o.S.Keys), o.S.Ver,
 		coqBool(o.S.DEKv1), coqBool(o.S.DEKother), coqBool(o.S.DBv1), coqBool(o.S.DBother), coqDisk(o.S.Doc),
-		len(o.ValHits), len(o.NameHits), o.ModeDB, o.ModeAud, o.KEK)
+		len(o.ValHits), len(o.NameHits), o.ModeDB, o.ModeAud, o.KEK, o.ResClass, coqLive(o.Live))
 }
 
 func coqHist(m *c05Markers, ops []DBStep, obs []c05StepObs) string {
@@ -417,7 +489,7 @@ func coqHist(m *c05Markers, ops []DBStep, obs []c05StepObs) string {
 		if ops[i].Kind == "reopen" {
 			parts[i] = fmt.Sprintf("HRe (%s)", coqSobs(obs[i]))
 		} else {
-			parts[i] = fmt.Sprintf("HOp (%s) (%s)", c05CoqOp(m, ops[i]), coqSobs(obs[i]))
+			parts[i] = fmt.Sprintf("HOp %s (%s) (%s)", coqBool(!ops[i].SaveFail), c05CoqOp(m, ops[i]), coqSobs(obs[i]))
 		}
 	}
 	return "Hist " + coqList(parts)
@@ -458,19 +530,23 @@ func genC05Step(r *rand.Rand, m *c05Markers, last []secDump, prev string, long b
 	}
 	st.Val = 1 + r.IntN(len(m.values))
 	st.NameQ = fmt.Sprintf("%q", st.Name)
+	if isMut(st.Kind) && r.IntN(7) == 0 {
+		st.SaveFail = true // the file system refuses this call's save: the rollback path
+	}
 	return st
 }
 
 // runC05History executes fixed (r == nil) or generated ops; returns the record and the
 // environment still open (for the tamper runs), which the caller closes.
-func runC05History(work string, idx int, mseed uint64, ops []DBStep, r *rand.Rand, length int) (Record, *c05Env, []secDump) {
+func runC05History(work string, idx int, mseed uint64, outage bool, ops []DBStep, r *rand.Rand, length int) (Record, *c05Env, []secDump) {
 	m := genMarkers(mseed)
-	in := C05Input{Mode: "hist", MSeed: mseed, Ops: ops}
+	in := C05Input{Mode: "hist", MSeed: mseed, Ops: ops, Outage: outage}
 	env, err := newC05Env(filepath.Join(work, fmt.Sprintf("c05db%d", idx%32)), newKEK())
 	if err != nil {
 		return Record{Kind: "hist", Input: in, Key: fmt.Sprintf("create-failed-%d", idx),
 			Direct: &DirectVerdict{OK: false, What: "cannot create a database: " + err.Error()}}, nil, nil
 	}
+	env.outage, env.down.down = outage, outage // from here on the key service answers only while the file is (re)opened
 	var obs []c05StepObs
 	var last []secDump
 	do := func(st DBStep) {
@@ -510,8 +586,14 @@ func runC05History(work string, idx int, mseed uint64, ops []DBStep, r *rand.Ran
 		if st.Kind == "reopen" && i+1 < len(in.Ops) && isMut(in.Ops[i+1].Kind) {
 			tags["write-after-reopen"] = true
 		}
+		if st.SaveFail && obs[i].Res == "other" {
+			tags["refused-save"] = true
+		}
+		if outage {
+			tags["key-service-down"] = true
+		}
 	}
-	rec := Record{Kind: "hist", Input: in, Obs: obs, Key: fmt.Sprintf("%d:%s", mseed, kb), Coq: coqHist(m, in.Ops, obs),
+	rec := Record{Kind: "hist", Input: in, Obs: obs, Key: fmt.Sprintf("%d:%v:%s", mseed, outage, kb), Coq: coqHist(m, in.Ops, obs),
 		Nontrivial: saves >= 3, Tags: append(sortedKeys(tags), "hist")}
 	return rec, env, last
 }
@@ -792,7 +874,7 @@ func newSession(work string, env *c05Env, m *c05Markers) *openSession {
 	os.MkdirAll(dir, 0700)
 	orig, _ := os.ReadFile(env.path)
 	s := &openSession{path: filepath.Join(dir, "db.json"), orig: orig, tok: m.token, dumpIx: map[string]int{}}
-	s.keys = []*countingAEAD{{inner: env.kek.inner}, {inner: newKEK()}, {inner: newKEK()}}
+	s.keys = []*countingAEAD{{inner: env.real}, {inner: newKEK()}, {inner: newKEK()}}
 	_, gkeks := goldenFiles()
 	for _, gk := range gkeks {
 		s.keys = append(s.keys, &countingAEAD{inner: gk})
@@ -966,6 +1048,57 @@ func modeRecords(work string) []Record {
 			Obs: fmt.Sprintf("%#o", fileMode(cdir)), Coq: fmt.Sprintf("Mode FCacheDir %d", fileMode(cdir))})
 	}
 	os.RemoveAll(filepath.Join(work, "c05cache"))
+	// the cache file written over a PRE-EXISTING file with lax bits (placeholder, or left by an older version)
+	doc := []byte(`{"x":{"secret":{"Value":"c2VjcmV0","Version":1},"lastAccess":1}}`)
+	for i, pre := range []struct {
+		mode    os.FileMode
+		content string
+	}{{0644, ""}, {0666, ""}, {0640, ""}, {0644, `{"old":{"secret":{"Value":"b2xk","Version":3},"lastAccess":2}}`}, {0666, "garbage"}, {0604, ""}} {
+		dir := filepath.Join(work, "c05cache2")
+		os.RemoveAll(dir)
+		os.MkdirAll(dir, 0700)
+		p := filepath.Join(dir, "cache.json")
+		os.WriteFile(p, []byte(pre.content), pre.mode)
+		os.Chmod(p, pre.mode) // (the umask does not apply to chmod)
+		in := C05Input{Mode: "mode", Class: "cache-over", Detail: fmt.Sprintf("existing %#o file of %d bytes", pre.mode, len(pre.content))}
+		fc, err := setec.NewFileCache(p)
+		if err == nil {
+			err = fc.Write(doc)
+		}
+		if err != nil {
+			recs = append(recs, Record{Kind: "mode", Input: in, Key: fmt.Sprintf("cache-over-%d", i), Direct: &DirectVerdict{OK: false, What: "file cache over an existing file: " + err.Error()}})
+		} else {
+			recs = append(recs, Record{Kind: "mode", Input: in, Key: fmt.Sprintf("cache-over-%d", i), Nontrivial: true, Tags: []string{"mode:cache-over"},
+				Obs: map[string]any{"before": fmt.Sprintf("%#o", pre.mode), "after": fmt.Sprintf("%#o", fileMode(p))}, Coq: fmt.Sprintf("Mode FCacheOver %d", fileMode(p))})
+		}
+		os.RemoveAll(dir)
+	}
+	// the database file: a valid file made lax before the next save is 0600 again after it
+	for i, mode := range []os.FileMode{0644, 0666, 0640} {
+		for j, reopened := range []bool{false, true} {
+			in := C05Input{Mode: "mode", Class: "db-over", Detail: fmt.Sprintf("database file chmod %#o before a save (reopened handle: %v)", mode, reopened)}
+			key := fmt.Sprintf("db-over-%d-%d", i, j)
+			env, err := newC05Env(filepath.Join(work, "c05dbmode"), newKEK())
+			if err != nil {
+				recs = append(recs, Record{Kind: "mode", Input: in, Key: key, Direct: &DirectVerdict{OK: false, What: err.Error()}})
+				continue
+			}
+			m := genMarkers(7)
+			env.d.Put(env.super, string(m.names[0]), m.values[0])
+			os.Chmod(env.path, mode)
+			if reopened {
+				env.reopen()
+			}
+			_, perr := env.d.Put(env.super, string(m.names[1]), m.values[1])
+			rec := Record{Kind: "mode", Input: in, Key: key, Nontrivial: true, Tags: []string{"mode:db-over"},
+				Obs: map[string]any{"before": fmt.Sprintf("%#o", mode), "after": fmt.Sprintf("%#o", fileMode(env.path))}, Coq: fmt.Sprintf("Mode FDbOver %d", fileMode(env.path))}
+			if perr != nil {
+				rec.Direct = &DirectVerdict{OK: false, What: "put failed: " + perr.Error()}
+			}
+			recs = append(recs, rec)
+			env.close()
+		}
+	}
 	return recs
 }
 
@@ -987,7 +1120,7 @@ func runC05(o Opts) {
 					out.Emit(r)
 				}
 			case "tamper":
-				rec, env, last := runC05History(work, i, in.MSeed, in.Ops, nil, 0)
+				rec, env, last := runC05History(work, i, in.MSeed, in.Outage, in.Ops, nil, 0)
 				if env != nil {
 					hin := rec.Input.(C05Input)
 					only := in
@@ -1005,7 +1138,7 @@ func runC05(o Opts) {
 					env.close()
 				}
 			default:
-				rec, env, _ := runC05History(work, i, in.MSeed, in.Ops, nil, 0)
+				rec, env, _ := runC05History(work, i, in.MSeed, in.Outage, in.Ops, nil, 0)
 				if env != nil {
 					env.close()
 				}
@@ -1016,7 +1149,7 @@ func runC05(o Opts) {
 	}
 	idx := 0
 	for _, in := range readCorpus[C05Input](o.Corpus) {
-		rec, env, _ := runC05History(work, idx, in.MSeed, in.Ops, nil, 0)
+		rec, env, _ := runC05History(work, idx, in.MSeed, in.Outage, in.Ops, nil, 0)
 		if env != nil {
 			env.close()
 		}
@@ -1046,7 +1179,7 @@ func runC05(o Opts) {
 			length = 30 + r.IntN(16) // long, mutation-heavy, rare reopens: many saves on one handle
 		}
 		mseed := o.Seed*1000 + uint64(i)
-		rec, env, last := runC05History(work, idx, mseed, nil, r, length)
+		rec, env, last := runC05History(work, idx, mseed, i%3 == 1, nil, r, length)
 		idx++
 		rec.ID = out.n
 		out.Emit(rec)
@@ -1096,6 +1229,8 @@ func runC05(o Opts) {
 		emitAlt(func(o *c05StepObs) { o.S.DEKother = true }, any)
 		emitAlt(func(o *c05StepObs) { o.KEK = 0 }, func(st DBStep) bool { return st.Kind == "reopen" })   // a reopen that did not consult the key
 		emitAlt(func(o *c05StepObs) { o.KEK = 1 }, func(st DBStep) bool { return st.Kind == "put" })      // a write that did
+		emitAlt(func(o *c05StepObs) { o.ResClass = 0 }, func(st DBStep) bool { return st.SaveFail })         // a refused save reported as success (when it reached the save)
+		emitAlt(func(o *c05StepObs) { o.Live = append([]secDump{{Name: []byte("ghost"), Active: 1}}, o.Live...) }, any) // a served state with something extra
 	}
 	if tampSelf != nil {
 		alt := *tampSelf
